@@ -25,6 +25,10 @@ claimed = {
    text="Refusal cases of the real SendSet on a byte-recording net.Conn with symbolic template ids, values and set length: unknown template id (transmitted iff the solver-visible id equals one that was sent), field-count mismatch at any record position, every message size 65519..65540 plus a symbolic set length for the limit comparison itself, undefined set type, and ill-typed values (wrong address family / wrong fixed length) which must be refused rather than altered; after every refusal zero bytes were written and a following send is byte-identical to the reference encoding.",
    note="Bounds as listed per harness in the evidence; sequence-number state after a failed send is outside the statement (C08) and is read back from the wire.",
    tech="symbolic execution of Go SSA + SMT, bounded; refusal oracle on recorded writes"),
+ "C03": dict(cat="model_checking", sec="DESIGN.md section 4, C03",
+   text="Bounded symbolic execution of the real collector decoder (decodePacket, decodeTemplateSet, decodeDataSet, getFieldLength, util.Decode, bytes.Buffer and encoding/binary from SSA) on packets whose every byte is a solver variable, for every explored template state and all three decoding modes. Totality is decided as a path outcome (any Go panic, any path over the instruction/allocation budget = violation); exactness is an SMT obligation against an independent reference parser of the set body; template messages are compared with a reference walk of the field specifiers.",
+   note="Bounds: packets up to 20+12 (quick) / 20+24 (thorough) bytes for fixed-width templates and 20+6 / 20+9 bytes for templates with a variable-length field (paths grow as 2^body there); template layouts as listed in the evidence; template-set packets up to 20+12 / 20+20 bytes with the (element id, enterprise) of each specifier assumed to lie in a pool of 11 pairs. Longer packets are outside the bounded verdict.",
+   tech="symbolic execution of Go SSA over all-symbolic packets + SMT; panic/hang as path outcomes; differential against a reference parser"),
 }
 
 NA = {
